@@ -5,6 +5,7 @@ package main
 // takes the same parameters as the main harness through the environment.
 
 import (
+	"strings"
 	"context"
 	"errors"
 	"fmt"
@@ -60,6 +61,7 @@ type labConn struct {
 	peer   net.Addr
 	onWrite func(b []byte) // reaction of the scripted servers to a client transmission
 	runaway bool
+	failWrites int // the next writes fail
 }
 
 func newLabConn() *labConn {
@@ -77,6 +79,10 @@ func (c *labConn) ReadFrom(p []byte) (int, net.Addr, error) {
 func (c *labConn) WriteTo(p []byte, addr net.Addr) (int, error) {
 	c.mu.Lock()
 	defer c.mu.Unlock()
+	if c.failWrites > 0 {
+		c.failWrites--
+		return 0, fmt.Errorf("scripted write error (ENOBUFS)")
+	}
 	if len(c.writes) >= 2000 {
 		// a call that keeps transmitting without ever waiting would spin forever: stop it and let the oracles report it
 		c.runaway = true
@@ -111,6 +117,22 @@ func (c *labConn) inject(at time.Duration, b []byte) {
 	}()
 }
 
+// rebase: forget what was written so far and count time from now
+func (c *labConn) rebase() {
+	c.mu.Lock()
+	defer c.mu.Unlock()
+	c.writes = nil
+	c.start = time.Now()
+}
+
+// priorCalls: how many unanswered calls the client has made before the observed one (0..2, from the scenario's parameters)
+func priorCalls(tau time.Duration, tries, nds int) int {
+	if tries < 0 || tries > 5 {
+		return 0 // an unanswered call with unbounded tries never ends
+	}
+	return (int(tau/time.Millisecond) + tries + nds) % 3
+}
+
 func (c *labConn) snapshot() []writeRec {
 	c.mu.Lock()
 	defer c.mu.Unlock()
@@ -143,6 +165,12 @@ func timedCallV4(tau time.Duration, tries int, cancelAt, closeAt *time.Duration,
 		if err != nil {
 			t.Fatal(err)
 		}
+		// a client is used for many calls: the schedule of a call does not depend on the calls made before it
+		for k := priorCalls(tau, tries, len(ds)); k > 0; k-- {
+			preq, _ := dhcpv4.NewDiscovery(labHW, dhcpv4.WithTransactionID(dhcpv4.TransactionID{0x11, 0x22, 0x33, byte(k)}))
+			c.SendAndRead(context.Background(), &net.UDPAddr{IP: net.IPv4bcast, Port: 67}, preq, nclient4.IsMessageType(dhcpv4.MessageTypeOffer))
+		}
+		conn.rebase()
 		req, _ := dhcpv4.NewDiscovery(labHW, dhcpv4.WithTransactionID(dhcpv4.TransactionID{0xaa, 0xbb, 0xcc, 0xdd}))
 		for _, d := range ds {
 			at := msArg(d[:4])
@@ -216,6 +244,12 @@ func timedCallV6(tau time.Duration, tries int, cancelAt, closeAt *time.Duration,
 		if err != nil {
 			t.Fatal(err)
 		}
+		for k := priorCalls(tau, tries, len(ds)); k > 0; k-- {
+			preq, _ := dhcpv6.NewSolicit(labHW)
+			preq.TransactionID = dhcpv6.TransactionID{9, 9, byte(k)}
+			c.SendAndRead(context.Background(), nclient6.AllDHCPRelayAgentsAndServers, preq, nclient6.IsMessageType(dhcpv6.MessageTypeAdvertise))
+		}
+		conn.rebase()
 		req, _ := dhcpv6.NewSolicit(labHW)
 		req.TransactionID = dhcpv6.TransactionID{1, 2, 3}
 		for _, d := range ds {
@@ -597,27 +631,80 @@ func sortInts(a []int) {
 func reuseAfterReturn(r *Run, v6 bool) {
 	synctest.Test(syncT, func(t *testing.T) {
 		conn := newLabConn()
+		// however a call ended (timeout, failed write, cancelled context, response), its id is free again at once
+		var call func(ctx context.Context) error
+		var closeClient func()
+		var reply []byte
 		if !v6 {
 			c, _ := nclient4.NewWithConn(conn, labHW, nclient4.WithTimeout(20*time.Millisecond), nclient4.WithRetry(1))
 			req, _ := dhcpv4.NewDiscovery(labHW, dhcpv4.WithTransactionID(dhcpv4.TransactionID{1, 1, 1, 1}))
-			for k := 0; k < 3; k++ {
-				_, err := c.SendAndRead(context.Background(), &net.UDPAddr{IP: net.IPv4bcast, Port: 67}, req, nil)
-				if !errors.Is(err, nclient4.ErrNoResponse) {
-					r.Fail("c11-id-not-reusable", fmt.Sprintf("v4 call %d", k), fmt.Sprint(err))
+			rep, _ := dhcpv4.NewReplyFromRequest(req, dhcpv4.WithMessageType(dhcpv4.MessageTypeOffer))
+			reply = rep.ToBytes()
+			call = func(ctx context.Context) error {
+				_, err := c.SendAndRead(ctx, &net.UDPAddr{IP: net.IPv4bcast, Port: 67}, req, nil)
+				if errors.Is(err, nclient4.ErrNoResponse) {
+					return errNoResp
 				}
+				return err
 			}
-			c.Close()
+			closeClient = func() { c.Close() }
 		} else {
 			c, _ := nclient6.NewWithConn(conn, labHW, nclient6.WithTimeout(20*time.Millisecond), nclient6.WithRetry(1))
 			req, _ := dhcpv6.NewSolicit(labHW)
-			for k := 0; k < 3; k++ {
-				_, err := c.SendAndRead(context.Background(), nclient6.AllDHCPRelayAgentsAndServers, req, nil)
-				if !errors.Is(err, nclient6.ErrNoResponse) {
-					r.Fail("c11-id-not-reusable", fmt.Sprintf("v6 call %d", k), fmt.Sprint(err))
+			reply = (&dhcpv6.Message{MessageType: dhcpv6.MessageTypeAdvertise, TransactionID: req.TransactionID}).ToBytes()
+			call = func(ctx context.Context) error {
+				_, err := c.SendAndRead(ctx, nclient6.AllDHCPRelayAgentsAndServers, req, nil)
+				if errors.Is(err, nclient6.ErrNoResponse) {
+					return errNoResp
 				}
+				return err
 			}
-			c.Close()
+			closeClient = func() { c.Close() }
 		}
+		endings := []string{"timeout", "failed write", "cancelled", "response", "timeout"}
+		for k, how := range endings {
+			ctx, cancel := context.WithCancel(context.Background())
+			switch how {
+			case "failed write":
+				conn.mu.Lock()
+				conn.failWrites = 1
+				conn.mu.Unlock()
+			case "cancelled":
+				go func() {
+					select {
+					case <-time.After(5 * time.Millisecond):
+						cancel()
+					case <-conn.closed:
+					}
+				}()
+			case "response":
+				conn.inject(time.Since(conn.start)+5*time.Millisecond, reply)
+			}
+			err := call(ctx)
+			cancel()
+			ok := false
+			switch how {
+			case "timeout":
+				ok = err == errNoResp
+			case "failed write":
+				ok = err != nil && err != errNoResp && !strings.Contains(err.Error(), "in use")
+			case "cancelled":
+				ok = errors.Is(err, context.Canceled)
+			case "response":
+				ok = err == nil
+			}
+			if !ok {
+				what := "the call"
+				if k > 0 {
+					what = "the call after one that ended by " + endings[k-1]
+				}
+				r.Fail("c11-id-not-reusable", fmt.Sprintf("v6=%v call %d (%s)", v6, k, how), fmt.Sprintf("%s, expected to end by %s, returned: %v", what, how, err))
+				break
+			}
+		}
+		closeClient()
 		synctest.Wait()
 	})
 }
+
+var errNoResp = errors.New("no response")
